@@ -427,8 +427,11 @@ func (sm *SealManager) performRootRotation(ctx context.Context, ns *namespace.Na
 
 	if isShamirSeal {
 		if len(newSealKey) > 0 {
+			// Like Initialize, keep a namespace's copy of its seal key
+			// under the namespace's own prefix; the unprefixed path is the
+			// record of the root barrier.
 			err := b.Put(ctx, &logical.StorageEntry{
-				Key:   barrier.ShamirKekPath,
+				Key:   NamespaceStoragePathPrefix(ns) + barrier.ShamirKekPath,
 				Value: newSealKey,
 			})
 			if err != nil {
